@@ -145,7 +145,15 @@ func (c *AppenderRefs) sortByLevel() {
 	// Adjust MaxLevel to match the next appender's MinLevel if needed
 	for i := len(c.AppenderRefs) - 1; i >= 1; i-- {
 		if c.AppenderRefs[i-1].Level.MaxLevel == MaxLevel {
-			c.AppenderRefs[i-1].Level.MaxLevel = c.AppenderRefs[i].Level.MinLevel
+			// Chain to the next strictly greater lower bound, so that
+			// references sharing a lower bound all keep a non-empty range.
+			minCode := c.AppenderRefs[i-1].Level.MinLevel.code
+			for _, r := range c.AppenderRefs[i:] {
+				if r.Level.MinLevel.code > minCode {
+					c.AppenderRefs[i-1].Level.MaxLevel = r.Level.MinLevel
+					break
+				}
+			}
 		}
 	}
 }
